@@ -92,11 +92,11 @@ LoadFrom(c, op, newlmt, res, t2) ==
     LET p == Parse(c) IN
     IF p[1] = "ok"
     THEN /\ lines' = p[2] /\ recs' = p[3] /\ touched' = t2 /\ lmt' = newlmt
-         /\ obs' = Obs(op, IF op = "load_string" THEN c ELSE <<>>, res)
+         /\ obs' = Obs(op, IF op \in {"load_string", "load_other"} THEN c ELSE <<>>, res)
     ELSE \* a failed load leaves the database as it was; the remembered stamp is the new one
          \* (deviation of the code, named: after a failed load() a following load_if_changed() answers False)
          /\ UNCHANGED <<lines, recs, touched>> /\ lmt' = newlmt
-         /\ obs' = Obs(op, IF op = "load_string" THEN c ELSE <<>>, "ValueError")
+         /\ obs' = Obs(op, IF op \in {"load_string", "load_other"} THEN c ELSE <<>>, "ValueError")
 
 LoadA ==
     /\ Step
@@ -115,23 +115,31 @@ LoadStringA(c) ==
     /\ LoadFrom(c, "load_string", 0, "ok", {})
     /\ UNCHANGED <<disk, dmt, dtouched, autosave>>
 
+\* load(path) with an explicit path: the database is read from ANOTHER file; the object stays bound to its own file, whose
+\* remembered stamp is forgotten (so the next load_if_changed() reads the bound file again, changed or not)
+LoadOtherA(c) ==
+    /\ Step
+    /\ LoadFrom(c, "load_other", 0, "True", {})
+    /\ UNCHANGED <<disk, dmt, dtouched, autosave>>
+
 Next ==
     \/ \E k \in Keys \cup BadKeys, p \in Pws : SetPasswordA(k, p) \/ CheckPasswordA(k, p)
     \/ \E k \in Keys \cup BadKeys : DeleteA(k) \/ GetHashA(k)
     \/ \E k \in Keys, h \in {[pw |-> "-", gen |-> "raw1"]} \cup [pw : Pws, gen : {"old"}] : SetHashA(k, h)
     \/ SaveA \/ SaveCopyA \/ LoadA \/ LoadIfChangedA
-    \/ \E c \in InitContents : ExternalWriteA(c) \/ LoadStringA(c)
+    \/ \E c \in InitContents : ExternalWriteA(c) \/ LoadStringA(c) \/ LoadOtherA(c)
 
 SimNext ==
     LET k  == RandomElement(Keys \cup BadKeys)  gk == RandomElement(Keys)
         p  == RandomElement(Pws)                c  == RandomElement(InitContents)
         h  == RandomElement({[pw |-> "-", gen |-> "raw1"], [pw |-> "-", gen |-> "raw2"]} \cup [pw : Pws, gen : {"old"}])
-        w  == RandomElement(1..15)
+        w  == RandomElement(1..17)
     IN CASE w \in {1, 2, 3} -> SetPasswordA(k, p) [] w \in {4, 5} -> CheckPasswordA(k, p)
          [] w \in {6, 7} -> DeleteA(k)            [] w = 8 -> GetHashA(k)
          [] w = 9 -> SetHashA(gk, h)              [] w = 10 -> SaveA
          [] w = 11 -> LoadA                       [] w = 12 -> LoadIfChangedA
          [] w = 13 -> ExternalWriteA(c)           [] w = 14 -> SaveCopyA
+         [] w = 15 -> LoadOtherA(c)               [] w = 16 -> LoadIfChangedA
          [] OTHER -> LoadStringA(c)
 
 \* ---- properties (C16) ------------------------------------------------------------
@@ -150,10 +158,15 @@ FailuresChangeNothing == [][obs'.res = "ValueError" => (recs' = recs /\ lines' =
 \* check_password answers TRUE exactly for the password last set
 InvCheck == obs.op = "check_password" /\ obs.res = "True" => recs[obs.arg[1]].pw = obs.arg[2] /\ (Upgrades => recs[obs.arg[1]].gen = "new")
 \* untouched records keep their relative order across every operation that is not a load
-UntouchedOrder == [][(obs'.op \notin {"load", "load_if_changed", "load_string"}) =>
+UntouchedOrder == [][(obs'.op \notin {"load", "load_if_changed", "load_string", "load_other"}) =>
                         LET U == {k \in DOMAIN recs' : k \notin touched'}
                             f(ls) == SelectSeq(ls, LAMBDA tk : tk.t = "skip" \/ tk.k \in U)
                         IN f(lines') = f(lines)]_vars
+
+\* after reading another file or a string the object no longer claims to be current with its own file:
+\* the next load_if_changed() reads the bound file whether or not it changed
+ForeignLoadForgets == [][(obs.op \in {"load_other", "load_string"} /\ obs'.op = "load_if_changed") => obs'.res # "False"]_vars
+InvForeignStamp == obs.op \in {"load_other", "load_string"} => lmt = 0
 
 \* observation for the binding: the parsed export, the relative order of untouched items, the disk
 Emit == DoEmit => PrintT(<<"EMIT", ToJson([n |-> n, op |-> obs'.op, arg |-> obs'.arg, res |-> obs'.res,
